@@ -32,7 +32,7 @@ pub static C18_DIRECT: Scenario = Scenario {
     run: run_c18_direct,
     quick_runs: 20_000,
     thorough_runs: 1_000_000,
-    rule: "one run = one real InflightLimitLayer (limit 1-4, Block or ReturnError) shared by clones, 2-4 peers, 10-200 requests with PRNG arrival instants, inner durations, outcomes (Ok / error status) and cancellation instants (while waiting for a permit or inside the service), then limit-many simultaneous requests per peer; per-peer gauge and admission order checked against a reference semaphore model; distinct = distinct order signature (arrival / start / end / refusal events); non-trivial = the limit was reached at least once",
+    rule: "one run = one real InflightLimitLayer (limit 0-4, Block or ReturnError) shared by clones, 2-4 peers, 10-200 requests with PRNG arrival instants, inner durations, outcomes (Ok / error status) and cancellation instants (while waiting for a permit or inside the service), then limit-many simultaneous requests per peer; per-peer gauge and admission order checked against a reference semaphore model; distinct = distinct order signature (arrival / start / end / refusal events); non-trivial = the limit was reached at least once",
     real: LAYER_REAL,
     stubbed: LAYER_STUB,
 };
@@ -204,7 +204,8 @@ enum Outcome {
 fn run_c18_direct(input: RunInput) -> ScenFuture {
     Box::pin(async move {
         let w = World::new(&input, LinkCfg::clean(100, 100));
-        let limit = w.param("limit", 1, 4) as usize;
+        // (limit 0 is a legal configuration: nothing is ever admitted)
+        let limit = w.param("limit", 0, 4) as usize;
         let block = w.flag("block_mode", 0.5);
         let n_peers = w.param("peers", 1, 4) as usize;
         let n_req = w.param("requests", 1, if w.tier == Tier::Quick { 120 } else { 250 }) as u64;
@@ -227,6 +228,12 @@ fn run_c18_direct(input: RunInput) -> ScenFuture {
                 fail: r.gen_bool(0.15),
                 cancel_after_ms: r.gen_bool(0.25).then(|| 2 * r.gen_range(0..40) + 1),
             });
+        }
+        if limit == 0 && block {
+            // every request waits for ever: all of them are abandoned at some point
+            for a in plan.iter_mut() {
+                a.cancel_after_ms = a.cancel_after_ms.or(Some(2 * (a.id % 40) + 1));
+            }
         }
         let results: Arc<Mutex<BTreeMap<u64, (Outcome, u64)>>> = Default::default();
         let mut tasks = Vec::new();
@@ -328,7 +335,7 @@ fn run_c18_direct(input: RunInput) -> ScenFuture {
                 w.violate("capacity-leaked", key.clone(), format!("after the history only {running} of {limit} simultaneous requests of peer {pi} were admitted at once"));
             }
             // while this peer is saturated, the next peer is admitted immediately
-            if n_peers > 1 {
+            if n_peers > 1 && limit > 0 {
                 let q = peers[(pi + 1) % n_peers];
                 let req = Request::new(Bytes::new()).with_extension(q).with_header("id", (2_000_000 + pi).to_string()).with_header("dur-ms", "0");
                 let r = tokio::time::timeout(Duration::from_millis(5), layered.clone().oneshot(req)).await;
